@@ -64,7 +64,7 @@ def handle(c):
     genome, anno, *_ = common.load_references(args, load_canonical_peptides=False)
     # gene_model.transcripts is a python set in the on-disk annotation: its iteration order is external
     # nondeterminism (string hashing); it is observed here and handed to the model
-    out = {'lib': [], 'tx_order': {g['id']: list(anno.genes[g['id']].transcripts) for g in world['genes']}}
+    out = {'lib': [], 'lib0': [], 'tx_order': {g['id']: list(anno.genes[g['id']].transcripts) for g in world['genes']}}
     # library level: one event at a time through the real reader and record class
     for i, ev in enumerate(c['events']):
         p = os.path.join(d, 'one_%s.MATS.%s.txt' % (ev['type'], c['suffix']))
@@ -77,6 +77,14 @@ def handle(c):
             out['lib'].append(sorted(r.to_string() for r in recs))
         except Exception as e:   # noqa
             out['lib'].append({'__exc__': type(e).__name__, 'msg': str(e)[:200]})
+        # the same row without read-count filtering (thresholds -1): maps every CLI line back to its row(s)
+        try:
+            recs = []
+            for rec in RMATSParser.parse(p, ev['type']):
+                recs += rec.convert_to_variant_records(anno=anno, genome=genome, min_ijc=-1, min_sjc=-1)
+            out['lib0'].append(sorted(r.to_string() for r in recs))
+        except Exception as e:   # noqa
+            out['lib0'].append({'__exc__': type(e).__name__})
     # CLI level
     names = {'SE': 'skipped_exon', 'A5SS': 'alternative_5_splicing', 'A3SS': 'alternative_3_splicing',
              'MXE': 'mutually_exclusive_exons', 'RI': 'retained_intron'}
